@@ -4,7 +4,7 @@
 From stdpp Require Import gmap.
 From RecordUpdate Require Import RecordSet.
 From Coq Require Import ZArith NArith List Bool Strings.Byte Strings.String.
-Require Import Regen.Base.Bytes Regen.Base.Calendar Regen.Dec.Dec Regen.Ids.Ids.
+Require Import Regen.Base.Bytes Regen.Base.Calendar Regen.Dec.Dec Regen.Ids.Ids Regen.Generated.LedgerConsts.
 Require Import Regen.Ledger.Types Regen.Ledger.Msgs Regen.Ledger.Orm.
 Import ListNotations RecordSetNotations.
 Local Open Scope Z_scope.
@@ -460,7 +460,7 @@ Definition h_remove_allowed_bridge_chain (e : env) (s : state) (authority : addr
   _ <- check (is_authority e authority) LUnauthorized ;;
   ret (s <| allowed_bridge_chains := allowed_bridge_chains s ∖ {[ to_lower chain ]} |>) REmpty.
 
-Definition uregen : bytes := b "uregen"%string.
+Definition uregen : bytes := LedgerConsts.uregen_denom.
 
 Definition h_burn_regen (e : env) (s : state) (burner : addr) (amount : bytes) : hres :=
   a <- from_option LInvalid (parse_sdk_int amount) ;;
